@@ -454,34 +454,32 @@ def c04_6(ctx: Ctx) -> RuleResult:
     for f in ctx.repo.implementations(FILT, "get_realization_weights"):
         cfg = cfg_of(ctx.repo, f)
         pf = PathFinder(cfg, dataflow_of(ctx.repo, f))
-        guards = []
-        for nd in nodes_in(f, ast.If):
-            raises = [x for s in nd.body for x in ast.walk(s) if isinstance(x, ast.Raise) and x.exc is not None]
-            if not any(contains(X.at(f, r.exc), lambda s: s == ("global", "ropt.enums.OptimizerExitCode.TOO_FEW_REALIZATIONS")) for r in raises):
-                continue
-            t = norm(X.value_at(f, nd.test))
-            # not any(0 < w)   (strictly positive)
-            m = match(t, ("unary", "not", call("numpy.any", ("cmp", "<", C(0), V("w")))))
-            if m is None:
-                m2 = match(t, call("numpy.all", ("cmp", "<=", V("w"), C(0))))
-                m = m2
-            guards.append((nd, m))
+        from ..util import bool_nnf, path_condition
+
+        too_few = [r for r in nodes_in(f, ast.Raise) if r.exc is not None and contains(X.at(f, r.exc), lambda s: s == ("global", "ropt.enums.OptimizerExitCode.TOO_FEW_REALIZATIONS"))]
         rets = [n for n in cfg.nodes if n.kind == "stmt" and isinstance(n.ast, ast.Return) and n in cfg.live_nodes()]
         for r_ in rets:
-            good = [g for g, m in guards if m is not None and X.at(f, r_.ast.value) == m["w"] or (m is not None and norm(X.at(f, r_.ast.value)) == m["w"])]
-            gn = {n for g in good for n in cfg.node_containing(g.test)}
-            path = pf.find_path(cfg.entry, lambda m_, r_=r_: m_ is r_, blocked=lambda m_: m_ in gn) if gn else [cfg.entry]
-            ok = bool(gn) and path is None
+            rv = norm(X.at(f, r_.ast.value)) if r_.ast.value is not None else ("const", None)
+            pc = path_condition(ctx, f, r_.ast)
+            lits = []
+            if pc:
+                g_ = bool_nnf(("bool", "and", tuple(c_ if p_ else ("unary", "not", c_) for c_, p_ in pc)))
+                lits = [(it[1], it[2]) for it in (g_[1] if g_[0] == "and" else [g_]) if it[0] == "lit"]
+            # the return is reached only where `any(0 < w)` holds (equivalently `all(w <= 0)` fails) for the returned w
+            strict = [(a, p) for a, p in lits if (p and match(a, call("numpy.any", ("cmp", "<", C(0), V("w")))) is not None)
+                      or ((not p) and match(a, call("numpy.all", ("cmp", "<=", V("w"), C(0)))) is not None)]
+            loose = [(a, p) for a, p in lits if contains(a, lambda s_: s_[0] == "call" and s_[1] in (G("numpy.any"), G("numpy.all"), G("numpy.count_nonzero"), G("numpy.sum")))]
+            same = [(a, p) for a, p in strict if contains(a, lambda s_: s_ == rv)]
+            ok = bool(too_few) and bool(same)
             why = ""
-            if not guards:
+            if not too_few:
                 why = "no TOO_FEW_REALIZATIONS guard at all"
-            elif not any(m is not None for _g, m in guards):
+            elif not strict and loose:
                 why = "the guard is not `not any(weights > 0)` (strict): zero or negative weights pass as a valid selection"
-            elif not gn:
-                why = "the guarded vector is not the vector that is returned"
-            elif path is not None:
+            elif not strict:
                 why = "a return is reachable without passing the guard"
-            res.add(f, r_.ast, "the returned weights passed `not any(weights > 0) -> raise TOO_FEW_REALIZATIONS`", ok, why,
-                    [] if ok or path is None or path == [cfg.entry] else describe_path(f, path), construct=f"{f.cls.name}.{f.name}: return guarded")
+            elif not same:
+                why = "the guarded vector is not the vector that is returned"
+            res.add(f, r_.ast, "the returned weights passed `not any(weights > 0) -> raise TOO_FEW_REALIZATIONS`", ok, why, construct=f"{f.cls.name}.{f.name}: return guarded")
     res.floor = 1
     return res
